@@ -149,6 +149,25 @@ Theorem c06_poller_registry_in_step :
 Proof. exact run_sync. Qed.
 Print Assumptions c06_poller_registry_in_step.
 
+(* KQueuePoller (driven over a scripted select.kqueue): EINTR is an empty answer, EBADF on (un)registration is
+   tolerated while the sets follow the request, and after daemonizing exactly the descriptors of the two sets are
+   registered again, each with its own filter *)
+Theorem c06_kqueue_poller :
+  forall s,
+    kq_step s (KPoll (KErr EINTR)) = (s, OReady [] []) /\
+    (forall fd, kq_step s (KRegR fd EBADF) = (mkP (reg s) (add fd (rs s)) (ws s), ODone)) /\
+    (forall fd flt, pmem (fd, flt) (reg (fst (kq_step s KDaemonize))) =
+                    (mem fd (rs s) && (flt =? KQ_READ)) || (mem fd (ws s) && (flt =? KQ_WRITE))).
+Proof. exact kq_all. Qed.
+Print Assumptions c06_kqueue_poller.
+
+Theorem c06_kqueue_poll_sound :
+  forall s l s' r w,
+    kq_step s (KPoll (KEvents l)) = (s', OReady r w) ->
+    s' = s /\ (forall fd, In fd r -> In (fd, KQ_READ) l) /\ (forall fd, In fd w -> In (fd, KQ_WRITE) l).
+Proof. exact kq_poll_sound. Qed.
+Print Assumptions c06_kqueue_poll_sound.
+
 (* non-vacuity: EPERM on kill, fork failure and an unknown child in one run *)
 Example c06_example :
   let w := Model.run 2 [mkConf 1 1 2 15 999 true ARUnexpected [0] false false CmdOk 0%nat] [mkG 999 [0%nat]]
